@@ -509,7 +509,11 @@ def _job(chunk):
 
 
 def check(tier="quick", seed=0, workers=None, only=None):
-    allc = list(config_cases(tier)) + list(pair_cases(tier)) + list(mutated_url_cases(tier)) + list(defctx_cases(tier))
+    import httpcore._ssl as _sslmod
+    # the default-context cases need the name `ssl` inside httpcore._ssl; a tree that obtains its default context differently is not
+    # wrong for that, the cases are then left out (and the evidence says so) instead of failing the check
+    seam_ok = hasattr(_sslmod, "ssl") and hasattr(_sslmod, "default_ssl_context")
+    allc = list(config_cases(tier)) + list(pair_cases(tier)) + list(mutated_url_cases(tier)) + (list(defctx_cases(tier)) if seam_ok else [])
     nw = workers or min(16, os.cpu_count() or 1)
     size = max(1, len(allc) // (nw * 8))
     chunks = [allc[i:i + size] for i in range(0, len(allc), size)]
@@ -526,6 +530,6 @@ def check(tier="quick", seed=0, workers=None, only=None):
                     "sequence of length 2-3 over every pair of origins (4 schemes x 2 hosts x 4 port forms) differing in exactly one effective component (also with all requests of a sequence made from one URL object changed in place), sync and async, proxied pools built both as ConnectionPool(proxy=Proxy(...)) and as HTTPProxy / SOCKSProxy objects; "
                     "distinct class = (kind, proxy, switches, ALPN, schemes of the sequence, violated?); default-context cases: two pools built with ssl_context=None (httpcore.default_ssl_context() on the path, "
                     "the name ssl inside httpcore._ssl re-bound to hand out recording contexts), a request of pool B running start to finish inside every single trace event of a request of pool A, x http2 switches of A and B x proxy kind"),
-           "samples": [{"case": repr(c)[:300]} for c in allc[:: max(1, len(allc) // 5)][:5]], "configurations": ncfg, "pair_sequences": len(allc) - ncfg - ndef, "default_context_configurations": ndef}
+           "samples": [{"case": repr(c)[:300]} for c in allc[:: max(1, len(allc) // 5)][:5]], "configurations": ncfg, "pair_sequences": len(allc) - ncfg - ndef, "default_context_configurations": ndef if seam_ok else "skipped: httpcore._ssl has no module-level name 'ssl' to re-bind"}
     return {"level": "exploration", "coverage": cov, "violations": viols,
             "assumptions": ["the origin peer records the TLS handshakes it saw itself (SNI, offered ALPN) and detects HTTP/2 by the client preface; it selects an ALPN protocol only among those offered"]}
